@@ -28,10 +28,10 @@ def gen(rng, tier):
     sizes_pool = rng.choice([[64, 128, 256, 512], [100, 1500], [512], [1, 1000, 2000]])
     if mode == 'GRID':
         rate = rng.choice([1024, 4096, 8192, 65536])
-        peak = rng.choice([None, None, rate * 2, rate * 8])
+        peak = rng.choice([None, None, rate * 2, rate * 8, rate, rate // 2])
     else:
         rate = rng.choice([1000.0, 9600.0, 33333.0, 1.5e5])
-        peak = rng.choice([None, None, rate * 1.5, rate * 10])
+        peak = rng.choice([None, None, rate * 1.5, rate * 10, rate, rate * 0.4])
     bucket = rng.choice([64, 256, 512, 1024, 1500, 4096])
     case = {'engine': 'N', 'mode': mode, 'rate': rate, 'bucket': bucket, 'peak': peak,
             'workload': [[ts[k], rng.randint(0, 2), rng.choice(sizes_pool)] for k in range(n)]}
